@@ -1316,6 +1316,9 @@ impl LlamaExecutor {
         let prev_fc = state.get_reg(RegName::FC);
         let decoded = self.decode_with_prefix(entry, state, bus, pre, pc_override, prefix_len)?;
         let mut mvl_length: Option<u32> = None;
+        // Set once the block loop below has moved all I bytes; the generic single-move path
+        // further down must then not store its one element again.
+        let mut mvl_block_done = false;
         if matches!(entry.kind, InstrKind::Mvl | InstrKind::Mvld) {
             let length = state.get_reg(RegName::I) & mask_for(RegName::I);
             if length == 0 {
@@ -1376,6 +1379,7 @@ impl LlamaExecutor {
                     src_addr = Self::advance_internal_addr_signed(src_addr, src_step);
                     dst_addr = Self::advance_internal_addr_signed(dst_addr, dst_step);
                 }
+                mvl_block_done = true;
             }
         }
         // Special-case RegPair-only move (e.g., opcode 0xFD)
@@ -1473,7 +1477,9 @@ impl LlamaExecutor {
             }
             .ok_or("missing mem operand")?;
             let (val, bits) = src_val.ok_or("missing source")?;
-            Self::store_traced(bus, mem.addr, bits, val);
+            if !mvl_block_done {
+                Self::store_traced(bus, mem.addr, bits, val);
+            }
             if let Some((reg, new_val)) = mem.side_effect {
                 if !matches!(entry.kind, InstrKind::Mvl | InstrKind::Mvld) {
                     state.set_reg(reg, new_val);
